@@ -6,6 +6,7 @@ import (
 	"fmt"
 	"log"
 	"os"
+	"unicode/utf8"
 
 	"github.com/HobbyOSs/gosk/internal/frontend"
 	"github.com/HobbyOSs/gosk/internal/gen"
@@ -30,6 +31,11 @@ func readAssets(str string) (string, error) {
 	body, err := os.ReadFile(str)
 	if err != nil {
 		return "", err
+	}
+
+	// UTF-8 として正しいバイト列はそのまま使います (Shift_JIS として読むと文字列リテラルの中身が変わってしまうため)
+	if utf8.Valid(body) {
+		return string(body), nil
 	}
 
 	var f []byte
